@@ -163,6 +163,26 @@ func (p *GoProg) tableUses(obj *types.Var) ([]tableUse, error) {
 		if len(name) < 5 || name[:5] != "init#" || fd.Body == nil {
 			continue
 		}
+		// the fill must run unconditionally: an init that can leave early (return, goto, panic, os.Exit) is not the idiom
+		leaves := false
+		ast.Inspect(fd.Body, func(n ast.Node) bool {
+			switch x := n.(type) {
+			case *ast.ReturnStmt:
+				leaves = true
+			case *ast.BranchStmt:
+				if x.Tok == token.GOTO {
+					leaves = true
+				}
+			case *ast.CallExpr:
+				if cn := p.CalleeName(x); cn == "panic" || cn == "os.Exit" || cn == "runtime.Goexit" {
+					leaves = true
+				}
+			}
+			return true
+		})
+		if leaves {
+			continue
+		}
 		for _, st := range fd.Body.List {
 			rs, ok := st.(*ast.RangeStmt)
 			if !ok {
